@@ -27,6 +27,7 @@ package limit
 //@   requires cfg: initialLimit >= 1 && 0.0 < backOffRatio && backOffRatio <= 1.0
 //@   ensures[C04] inv_established: inv(result)
 //@   ensures[C04,C06] fields: result.limit == initialLimit && result.backOffRatio == backOffRatio && result.increaseBy == max(1, increaseBy) && len(result.listeners) == 0
+//@   assigns nothing
 
 //@ func (*AIMDLimit).EstimatedLimit
 //@   refines[C04] core.Limit.EstimatedLimit with est = l.limit
@@ -183,6 +184,7 @@ package limit
 //@   ensures[C16] listeners_kept: l.listeners == old(l.listeners)
 //@   safety[C04]
 //@   owns[C17]
+//@   assigns l.estimatedLimit, all core.LimitChangeListener.delivered
 
 //@ func (*VegasLimit).OnSample
 //@   refines[C04] core.Limit.OnSample with est = int(l.estimatedLimit)
@@ -356,6 +358,7 @@ package limit
 //@   owns[C17]
 
 //@ func (*Gradient2Limit).OnSample
+//@   inlines (*measurements.ExponentialAverageMeasurement).Update
 //@   refines[C04] core.Limit.OnSample with est = int(l.estimatedLimit)
 //@   relational[C08] rtt_monotone_warmup varies rtt: r1(rtt) < r2(rtt) && old(g2Long(l).count) < g2Long(l).warmupWindow ==> r2(l.estimatedLimit) <= r1(l.estimatedLimit)
 //@   relational[C08] rtt_monotone_steady varies rtt: r1(rtt) < r2(rtt) && old(g2Long(l).count) >= g2Long(l).warmupWindow ==> r2(l.estimatedLimit) <= r1(l.estimatedLimit)
@@ -498,6 +501,7 @@ package limit
 
 //@ func NewFixedLimit
 //@   ensures[C19] value: result != nil && result.limit == ite(limit < 0, 10, limit)
+//@   assigns nothing
 
 //@ func (*FixedLimit).EstimatedLimit
 //@   refines[C19] core.Limit.EstimatedLimit with est = l.limit
@@ -528,6 +532,7 @@ package limit
 //@   ensures[C06,C07,C08] closure_bindings: (alphaFunc == nil ==> isLog10Root(*captured(result.alphaFunc, "limit.NewVegasLimitWithRegistry$1", 0))) && (betaFunc == nil ==> isLog10Root(*captured(result.betaFunc, "limit.NewVegasLimitWithRegistry$2", 0))) && (thresholdFunc == nil ==> isLog10Root(*captured(result.thresholdFunc, "limit.NewVegasLimitWithRegistry$3", 0))) && (increaseFunc == nil ==> isLog10RootFloat(*captured(result.increaseFunc, "limit.NewVegasLimitWithRegistry$4", 0))) && (decreaseFunc == nil ==> isLog10RootFloat(*captured(result.decreaseFunc, "limit.NewVegasLimitWithRegistry$5", 0)))
 //@   ensures[C06,C07,C08] supplied_functions: (alphaFunc != nil ==> result.alphaFunc == alphaFunc) && (betaFunc != nil ==> result.betaFunc == betaFunc) && (thresholdFunc != nil ==> result.thresholdFunc == thresholdFunc) && (increaseFunc != nil ==> result.increaseFunc == increaseFunc) && (decreaseFunc != nil ==> result.decreaseFunc == decreaseFunc)
 //@   safety[C04]
+//@   assigns nothing
 
 //@ func NewGradientLimitWithRegistry
 //@   requires cfg: initialLimit <= 1000000000 && maxConcurrency <= 1000000000 && minLimit <= ite(maxConcurrency <= 0, 1000, maxConcurrency) && ite(minLimit < 1, 1, minLimit) <= ite(initialLimit <= 0, 50, initialLimit) && isFinite(smoothing) && isFinite(rttTolerance) && rttTolerance <= 1.0e6 && (probeInterval == -1 || (0 <= probeInterval && probeInterval <= 1<<31))
@@ -536,6 +541,7 @@ package limit
 //@   ensures[C04] initial: result != nil && result.estimatedLimit == float64(ite(initialLimit <= 0, 50, initialLimit)) && result.maxLimit == ite(maxConcurrency <= 0, 1000, maxConcurrency) && result.minLimit == ite(minLimit < 1, 1, minLimit) && len(result.listeners) == 0
 //@   ensures[C07] queue_function: (queueSizeFunc != nil ==> result.queueSizeFunc == queueSizeFunc) && (queueSizeFunc == nil ==> isfunc(result.queueSizeFunc, "limit/functions.SqrtRootFunction$1"))
 //@   safety[C04]
+//@   assigns nothing
 
 //@ func NewGradient2Limit
 //@   requires cfg: initialLimit <= 1000000000 && maxConurrency <= 1000000000 && minLimit <= 1000000000 && isFinite(smoothing) && 1 <= longWindow && longWindow < 1<<31 && ite(minLimit <= 0, 4, minLimit) <= ite(initialLimit <= 0, 4, initialLimit)
@@ -545,6 +551,7 @@ package limit
 //@   establishes[C04,C08] ret0 != nil ==> ret0
 //@   ensures[C04] initial: ret0 != nil ==> ret1 == nil && ret0.estimatedLimit == float64(ite(initialLimit <= 0, 4, initialLimit)) && ret0.maxLimit == ite(maxConurrency <= 0, 1000, maxConurrency) && ret0.minLimit == ite(minLimit <= 0, 4, minLimit) && len(ret0.listeners) == 0
 //@   safety[C04]
+//@   assigns nothing
 
 //@ func NewWindowedLimit
 //@   requires cfg: minWindowTime <= 1<<61 && maxWindowTime <= 1<<61 && 1 <= minRTTThreshold
@@ -552,35 +559,43 @@ package limit
 //@   ensures[C09] accepts: !(minWindowTime < 100000000 || maxWindowTime < 100000000 || windowSize < 10 || delegate == nil) ==> ret0 != nil && ret1 == nil
 //@   establishes[C09] ret0 != nil ==> ret0
 //@   ensures[C09] fields: ret0 != nil ==> ret0.delegate == delegate && ret0.minWindowTime == minWindowTime && ret0.maxWindowTime == maxWindowTime && ret0.windowSize == windowSize && ret0.minRTTThreshold == minRTTThreshold && ret0.nextUpdateTime == 0 && ret0.sample.sampleCount == 0 && ret0.sample.didDrop == false
+//@   assigns nothing
 
 //@ func NewTracedLimit
 //@   requires cfg: limit != nil && logger != nil
 //@   establishes[C16] result
 //@   ensures[C16] fields: result != nil && result.limit == limit && result.logger == logger
+//@   assigns nothing
 
 //@ func NewSettableLimit
 //@   requires fits: limit <= MaxInt32
 //@   ensures[C16] fields: result != nil && int(result.limit) == ite(limit < 0, 10, limit) && len(result.listeners) == 0
+//@   assigns nothing
 
 // ---------------------------------------------------------------------------------------------
 // Default-configuration wrappers: they establish the same invariants with the documented defaults.
 //@ func NewDefaultVegasLimit
 //@   establishes[C04,C08,C15] result
 //@   ensures[C04] defaults: result != nil && result.estimatedLimit == 20.0 && result.maxLimit == 1000 && result.probeCount == 0 && len(result.listeners) == 0
+//@   assigns nothing
 //@ func NewDefaultVegasLimitWithLimit
 //@   requires cfg: initialLimit <= 1000000000
 //@   establishes[C04,C08,C15] result
 //@   ensures[C04] defaults: result != nil && result.estimatedLimit == float64(ite(initialLimit < 1, 20, initialLimit)) && result.maxLimit == 1000
+//@   assigns nothing
 //@ func NewDefaultAIMDLimit
 //@   ensures[C04] inv_established: inv(result)
 //@   ensures[C04,C06] defaults: result.limit == 10 && result.backOffRatio == 0.9 && result.increaseBy == 1
+//@   assigns nothing
 //@ func NewDefaultGradient2Limit
 //@   establishes[C04,C08] result != nil ==> result
 //@   ensures[C04] defaults: result != nil && result.estimatedLimit == 20.0 && result.maxLimit == 200 && result.minLimit == 20
+//@   assigns nothing
 //@ func NewDefaultWindowedLimit
 //@   requires cfg: delegate != nil
 //@   establishes[C09] result != nil ==> result
 //@   ensures[C09] wraps: result != nil && result.delegate == delegate
+//@   assigns nothing
 
 //@ func (*VegasLimit).RTTNoLoad
 //@   maintains l
